@@ -520,14 +520,33 @@ class Finding:
         self.kind, self.clause, self.sig, self.what, self.step = kind, clause, sig, what, step
 
 
-def run_history(reg, ns, comp, kinds, group, salt):
-    """Replay one action sequence (group: the emitted variants that share it; they differ in the I-layer's nondeterministic
-    choices) on the generated class `comp`.  -> (Finding or None, number of steps executed, skipped?)"""
-    steps0 = group[0]
-    alive = list(range(len(group)))
+def akey(st):
+    return json.dumps([st["op"], st.get("kw"), st.get("f"), st.get("c")])
+
+
+def build_trie(histories):
+    """emitted histories -> trie over (action, outcome): node = {action key: {outcome: {"pa", "post", "next": node}}}.
+    Histories that share actions but differ in outcomes are the branches of the I-layer's nondeterminism."""
+    root = {}
+    for h in histories:
+        node = root
+        for st in h:
+            e = node.setdefault(akey(st), {}).setdefault(st["out"], {"pa": st["pa"], "post": st["post"], "next": {}})
+            node = e["next"]
+    return root
+
+
+def run_history(reg, ns, comp, kinds, trie, actions, salt):
+    """Replay one action sequence on the generated class `comp`, following in the trie the branch the real code takes.
+    -> (Finding or None, number of steps executed, skipped?)"""
+    node = trie
     o = None
     nsteps = 0
-    for i, st in enumerate(steps0):
+    for i, st in enumerate(actions):
+        outs = node.get(akey(st))
+        if outs is None:  # the real code took a sibling branch whose continuation the model does not have (e.g. no object)
+            return None, nsteps, False
+        pa = next(iter(outs.values()))["pa"]
         if st["op"] == "ctor":
             kw, xs, culprit = {}, {}, None
             for g, c in enumerate(st["kw"]):
@@ -545,8 +564,10 @@ def run_history(reg, ns, comp, kinds, group, salt):
                 culprit = ("ctor", "multi-option" if (comp.union and npresent > 1) else "all-valid")
             out, res = outcome_of(lambda: comp.cls(**kw))
             before = None
-            desc = "%s(%s)" % (comp.name, ", ".join("%s=%r" % (k, _short(v)) for k, v in kw.items()))
+            desc = "%s(%s)" % (comp.name, ", ".join("%s=%s" % (k, _short(v)) for k, v in kw.items()))
         else:
+            if o is None:
+                return None, nsteps, False
             g = st["f"] - 1
             culprit = (kinds[g], st["c"])
             x = concretize(reg, ns, comp.fields[g][2], kinds[g], st["c"], salt + 3 * i)
@@ -560,22 +581,22 @@ def run_history(reg, ns, comp, kinds, group, salt):
         nsteps += 1
         sigtail = "%s:%s" % (sig_kind(culprit[0]), culprit[1])
         excname = type(res).__name__ if out != "stored" else ""
-        if out not in st["pa"]:
+        if out not in pa:
             if out == "stored":
                 clause = "pyobj.union_one" if culprit == ("ctor", "multi-option") else "pyobj.reject"
-            elif st["pa"] == ["stored"]:
+            elif pa == ["stored"]:
                 clause = "pyobj.accept"
             else:
                 clause = "pyobj.reject.valueerror"
             return Finding("violation", clause, "C18|%s|%s" % (clause, sigtail),
-                           "%s: P allows %s, the generated code %s" % (desc, "/".join(st["pa"]), "stored it" if out == "stored" else "raised %s: %s" % (excname, res)),
+                           "%s: P allows %s, the generated code %s" % (desc, "/".join(pa), "stored it" if out == "stored" else "raised %s: %s" % (excname, res)),
                            i), nsteps, False
-        alive = [v for v in alive if group[v][i]["out"] == out]
-        if not alive:
+        if out not in outs:
             return Finding("drift", "", "%s|%s" % (sigtail, out),
-                           "%s: the I-layer predicts %s, the generated code %s (allowed by P)" % (desc, "/".join(sorted({v[i]["out"] for v in group})), out if out == "stored" else "raised " + excname),
+                           "%s: the I-layer predicts %s, the generated code %s (allowed by P)" % (desc, "/".join(sorted(outs)), out if out == "stored" else "raised " + excname),
                            i), nsteps, False
-        post = group[alive[0]][i]["post"]
+        post = outs[out]["post"]
+        node = outs[out]["next"]
         if out != "stored":
             if st["op"] == "ctor":
                 return None, nsteps, False  # no object: the history ends here
@@ -595,9 +616,7 @@ def run_history(reg, ns, comp, kinds, group, salt):
                 break
             if g in xs and label not in ("None", "default"):
                 bad = check_label(reg, comp.fields[g][2], label, xs[g], vals[g])
-            elif st["op"] == "ctor":
-                bad = check_label(reg, comp.fields[g][2], label, None, vals[g])
-            elif label == "None":
+            elif st["op"] == "ctor" or label == "None":
                 bad = check_label(reg, comp.fields[g][2], label, None, vals[g])
             elif before[g] != after[g]:
                 bad = "pyobj.state_kept"
@@ -607,21 +626,19 @@ def run_history(reg, ns, comp, kinds, group, salt):
     return None, nsteps, False
 
 
+def compatible(histories, actions):
+    """the emitted histories whose actions are a prefix of (or equal to) `actions`: enough to rebuild the trie along this path"""
+    keys = [akey(a) for a in actions]
+    return [h for h in histories if len(h) <= len(keys) and all(akey(st) == keys[i] for i, st in enumerate(h))]
+
+
 def _short(v):
     s = repr(v)
     return s if len(s) < 90 else s[:87] + "..."
 
 
-def group_histories(cases):
-    groups = {}
-    for c in cases:
-        key = json.dumps([[s["op"], s.get("kw"), s.get("f"), s.get("c")] for s in c["steps"]])
-        groups.setdefault(key, []).append(c["steps"])
-    return list(groups.values())
-
-
 def emit_all(ctx, prefix, what):
-    """run the six emission configurations in parallel; -> {(ksel, union): [history groups]}"""
+    """run the six emission configurations in parallel; -> {(ksel, union): [histories (lists of steps)]}"""
     jobs = [(ks, u) for ks in KVEC for u in (False, True)]
 
     def one(job):
@@ -639,7 +656,7 @@ def emit_all(ctx, prefix, what):
             cases = r.json_lines()
             if len(cases) < 1000:
                 raise MachineryFailure("too few histories emitted for %r: %d" % (job, len(cases)))
-            res[job] = group_histories(cases)
+            res[job] = [c["steps"] for c in cases]
     return res
 
 
@@ -666,21 +683,28 @@ def report(ctx, finding, case):
         ctx.drift(finding.what)
 
 
-def spec_to_code(ctx, pkg, groups, n_inst, full_single):
+def spec_to_code(ctx, pkg, hists, n_inst, full_single):
     """replay the emitted histories on the generated classes"""
     ns = pkg.ns
     nsteps = nhist = nskip = 0
     drift_seen = set()
-    for (ks, union), gl in sorted(groups.items()):
+    for (ks, union), hl in sorted(hists.items()):
         kinds = KVEC[ks]
         comps = [pkg.comps["%s.%s%dv%d.1.0" % (ns, "U" if union else "S", ks, j)] for j in range(NVAR)]
-        for hi, group in enumerate(gl):
-            steps0 = group[0]
-            plain_ctor = all(c == "absent" for c in steps0[0]["kw"])  # default-constructed object: replay on EVERY concrete class
+        trie = build_trie(hl)
+        seen = set()
+        for h in hl:
+            actions = [{k: st[k] for k in ("op", "kw", "f", "c") if k in st} for st in h]
+            key = json.dumps(actions)
+            if key in seen:
+                continue
+            seen.add(key)
+            hi = len(seen)
+            plain_ctor = all(c == "absent" for c in actions[0]["kw"])  # default-constructed object: replay on EVERY concrete class
             variants = range(NVAR) if (plain_ctor and full_single) else [(hi * 5 + m * 7) % NVAR for m in range(n_inst)]
             for vi, j in enumerate(variants):
                 salt = hi + 3 * vi + j
-                f, n, skipped = run_history(pkg.comps, ns, comps[j], kinds, group, salt)
+                f, n, skipped = run_history(pkg.comps, ns, comps[j], kinds, trie, actions, salt)
                 nsteps += n
                 nskip += skipped
                 nhist += not skipped
@@ -689,10 +713,10 @@ def spec_to_code(ctx, pkg, groups, n_inst, full_single):
                         if f.sig in drift_seen:
                             continue
                         drift_seen.add(f.sig)
-                    report(ctx, f, {"dir": "spec->code", "ksel": ks, "union": union, "variant": j, "salt": salt, "group": group})
-            classes = sorted({s.get("c", "ctor") for s in steps0})
-            ctx.distinct("h|%d|%d|%s" % (ks, union, sha(json.dumps([[s["op"], s.get("kw"), s.get("f"), s.get("c")] for s in steps0]))[:12]),
-                         nontrivial=any(c not in VALID_LABELS and c != "ctor" for c in classes) or len(steps0) > 1)
+                    report(ctx, f, {"dir": "spec->code", "ksel": ks, "union": union, "variant": j, "salt": salt, "actions": actions,
+                                    "histories": compatible(hl, actions)})
+            cands = [a.get("c") for a in actions[1:]] + [c for c in actions[0]["kw"] if c != "absent"]
+            ctx.distinct("h|%d|%d|%s" % (ks, union, sha(key)[:12]), nontrivial=any(c not in VALID_LABELS for c in cands) or len(actions) > 1)
     ctx.count(nsteps)
     ctx.validated(nhist)
     return nhist, nsteps, nskip
@@ -1220,26 +1244,32 @@ def recs_by_id(recs, rid):
 
 
 # ------------------------------------------------------------------------------------------------------------------------------
-def selftests(ctx, pkg, groups, recs):
+def selftests(ctx, pkg, hists, recs):
     # (1) spec -> code: perturb one expected outcome of an emitted history, the driver must report the mismatch
-    key = (1, False)
     kinds = KVEC[1]
     comp = pkg.comps["%s.S1v2.1.0" % pkg.ns]
     done = 0
-    for group in groups[key]:
-        st = group[0]
-        if len(st) >= 2 and st[0]["out"] == "stored" and st[1]["op"] == "assign" and st[1]["c"] == "above" and st[1]["pa"] == ["verr"]:
-            bad = json.loads(json.dumps(group))
+    for h in hists[(1, False)]:
+        if len(h) >= 2 and h[0]["out"] == "stored" and h[1]["op"] == "assign" and h[1]["c"] == "above" and h[1]["pa"] == ["verr"]:
+            actions = [{k: st[k] for k in ("op", "kw", "f", "c") if k in st} for st in h]
+            good = compatible(hists[(1, False)], actions)
+            f0, _, sk = run_history(pkg.comps, pkg.ns, comp, kinds, build_trie(good), actions, 0)
+            if sk:
+                continue
+            if f0 is not None:
+                continue  # this very history already fails on the tree under test: take another one for the self-test
+            bad = json.loads(json.dumps(good))
             for v in bad:
-                v[1]["pa"] = ["stored"]
-                v[1]["out"] = "stored"
-            f, _, _ = run_history(pkg.comps, pkg.ns, comp, kinds, bad, 0)
+                if len(v) >= 2:
+                    v[1]["pa"] = ["stored"]
+                    v[1]["out"] = "stored"
+            f, _, _ = run_history(pkg.comps, pkg.ns, comp, kinds, build_trie(bad), actions, 0)
             ctx.selftest("perturbed expected outcome (max+1 -> stored) is reported by the replay driver",
                          f is not None and f.kind == "violation" and f.clause == "pyobj.accept")
-            bad2 = json.loads(json.dumps(group))
+            bad2 = json.loads(json.dumps(good))
             for v in bad2:
                 v[0]["post"][0] = "min" if v[0]["post"][0] != "min" else "max"
-            f2, _, _ = run_history(pkg.comps, pkg.ns, comp, kinds, bad2, 0)
+            f2, _, _ = run_history(pkg.comps, pkg.ns, comp, kinds, build_trie(bad2), actions, 0)
             ctx.selftest("perturbed expected post-state is reported by the replay driver", f2 is not None and f2.kind == "violation")
             done = 1
             break
@@ -1322,7 +1352,7 @@ def part_spec_to_code(ctx, pkg_a):
         ctx.not_exercised("build_namespace_tree/create_default_generators path (fell back to nunavut.generate_types)")
     nhist, nsteps, nskip = spec_to_code(ctx, pkg_a, groups, ctx.pick(1, 3), True)
     g0 = groups[(1, True)][len(groups[(1, True)]) // 2]
-    ctx.sample({"direction": "spec->code", "class": "c18a.U1v*.1.0 (union of int, byte array, composite)", "history": g0[0]})
+    ctx.sample({"direction": "spec->code", "class": "c18a.U1v*.1.0 (union of int, byte array, composite)", "history": g0})
     ctx.cov["spec_to_code"] = {"histories_replayed": nhist, "steps": nsteps, "instantiations_skipped_candidate_not_applicable": nskip,
                                "action_sequences": sum(len(v) for v in groups.values())}
     return groups
@@ -1379,7 +1409,7 @@ def replay(ctx, case):
         pkg = Pkg(ctx, "c18a", abstract_files("c18a"))
         ks, union = case["ksel"], case["union"]
         comp = pkg.comps["c18a.%s%dv%d.1.0" % ("U" if union else "S", ks, case["variant"])]
-        f, _, _ = run_history(pkg.comps, "c18a", comp, KVEC[ks], case["group"], case["salt"])
+        f, _, _ = run_history(pkg.comps, "c18a", comp, KVEC[ks], build_trie(case["histories"]), case["actions"], case["salt"])
         if f is not None:
             report(ctx, f, case)
         return
